@@ -1,5 +1,6 @@
 """C07 - storages hold only observed data, within capacity, targets aligned (invariant after every update;
 random outcomes enumerated with the scripted generator)."""
+import collections
 import math
 import random
 
@@ -18,7 +19,10 @@ def vkey(obj):
     """Value key of an observation or record: a storage may keep the caller's object or an equal copy of it - both are 'the
     observation' (the statement is about observations, not object identities)."""
     if isinstance(obj, dict):
-        return ("d", tuple(sorted((repr(k), repr(v)) for k, v in obj.items())))
+        try:        # (value AND type of every entry; hashing is much cheaper than repr on streams of 10^5 observations)
+            return ("d", frozenset((k, v, type(v)) for k, v in obj.items()))
+        except TypeError:
+            return ("d", tuple(sorted((repr(k), repr(v)) for k, v in obj.items())))
     return ("r", repr(obj))
 
 
@@ -42,6 +46,12 @@ def numeric_target(i):
     import numpy as np
     return [fractions.Fraction(2 * i + 1, 3), np.longdouble(i) + np.longdouble(1) / np.longdouble(3), 2 ** 60 + 2 * i + 1, np.float32(i + 1) / np.float32(3),
             i + 0.5, decimal.Decimal(i) / decimal.Decimal(7), np.int64(2 ** 62 + i), bool(i % 2)][i % 8]
+
+
+def reading(i):
+    """The i-th observation of the plain streams: integer stamps and generic floats (a stored observation must carry exactly the
+    values that arrived, to the last bit)."""
+    return {"t": i, "v": i * i, "w": math.sqrt(i + 0.37) * 1e-3, "z": -1.0 / (3.0 + i)}
 
 
 def invariant(st, arrivals, pos, cap, targets, kind):
@@ -72,7 +82,7 @@ def invariant(st, arrivals, pos, cap, targets, kind):
     if kind in ("interval", "sequence") and idx != list(range(max(0, n - cap), n)):
         raise Bad("order", f"{kind} holds arrivals {idx}, expected the last {cap} in order")
     for x, i in zip(xs, idx):
-        if x != {"t": i, "v": i * i}:
+        if x != reading(i):      # (a fresh copy of what arrived: the caller's own dict may be the stored one)
             raise Bad("content-modified", f"stored arrival {i} now reads {x!r}")
     return tuple(idx)
 
@@ -125,11 +135,15 @@ def drive_multi(kind, k, p, tg, n, rnd, style):
             x = prev if rnd.random() < 0.7 else arrivals[rnd.randrange(len(arrivals))][0]
         elif style == "dup-values":
             x = {"t": i % 2, "v": 0}
+        elif style == "equal-pairs":
+            x = {"t": i // 3, "v": 0}         # the same reading arrives two or three times IN A ROW, target included (new objects, equal values)
         elif style == "odd-records" and i % 6 == 4:
-            x = ("record", i)                 # not a dict: the storages do not look inside observations
+            # an unusual but legal observation: a dict SUBCLASS whose values are not numbers (the storages keep observations, they
+            # do not interpret them); observations stay dicts, the documented type
+            x = collections.OrderedDict([("t", i), ("v", ("record", i)), (("tuple", "key"), None)])
         else:
-            x = {"t": i, "v": i * i}
-        y = ("y", i)
+            x = {"t": i, "v": i * i, "w": math.sqrt(i + 0.37) * 1e-3}
+        y = ("y", i) if style != "equal-pairs" else ("y", i // 3)
         arrivals.append((x, y))
         prev = x
         st.update(x, y)
@@ -159,7 +173,9 @@ def drive(kind, k, p, tg, n, every=1, outcomes=None):
     evals = 0
     upd = st.update if (n + (k or 0)) % 3 == 1 else None      # a bound method taken before the first update, used throughout
     for i in range(n):
-        x, y = {"t": i, "v": i * i}, (("y", i) if (n + (k or 0)) % 4 else numeric_target(i))      # some streams carry numeric targets of many types
+        # (readings are generic floats - irrational-looking mantissas - next to the integer stamps: a stored observation must carry
+        # exactly the values that arrived)
+        x, y = reading(i), (("y", i) if (n + (k or 0)) % 4 else numeric_target(i))      # some streams carry numeric targets of many types
         arrivals.append((x, y))
         pos[vkey(x)] = i
         if i % 5 == 2:
@@ -250,7 +266,7 @@ def main(run):
                 for o in outs:
                     run.nontriv(("det", k, tg, o))
     # ---- repeated objects / equal-valued observations (identity-based multiset invariant)
-    for style in ("repeat-object", "dup-values", "odd-records"):
+    for style in ("repeat-object", "dup-values", "odd-records", "equal-pairs"):
         for kind, k, p in (("interval", 1, None), ("interval", 3, None), ("sequence", 1, None), ("batch", 0, None),
                            ("geometric", 2, 0.7), ("geometric", 4, 1.0), ("geometric", 5, None), ("uniform", 3, None), ("uniform", 1, None)):
             for tg in (True, False):
